@@ -168,11 +168,11 @@ Definition diagnose (c : tcase) : Z :=
 Inductive kw_out := KErr (e : Z) | KOk (l : list Z) (numeric_ok : bool).
 
 Record kwcase := mkKw {
-  w_star : bool; w_trid : Z; w_params : list Z; w_table : list (Z * list Z); w_out : kw_out
+  w_fill : bool; w_star : bool; w_trid : Z; w_params : list Z; w_table : list (Z * list Z); w_out : kw_out
 }.
 
 Definition check_kw (c : kwcase) : bool :=
-  match parse_tr_params (w_star c) (w_trid c) (w_params c) (w_table c), w_out c with
+  match parse_tr_params (w_fill c) (w_star c) (w_trid c) (w_params c) (w_table c), w_out c with
   | Err EKey, KErr 1 => true
   | Ok (TSList l), KOk l' _ => list_eqb Z.eqb l l'
   | Ok TSNorm, KOk l' ok => Nat.eqb (List.length l') 12 && ok
